@@ -552,3 +552,70 @@ Theorem C06_model_is_source_cli_args_select_next_plate_world :
   = Cli.cli_select_next_plate_cmd (Cli.introspect_of W) P construct L mix raw.
 Proof. exact C06SourceArgs.src_cli_select_next_plate_cmd_world. Qed.
 Print Assumptions C06_model_is_source_cli_args_select_next_plate_world.
+
+(* ---- the argparse option tables: get_parser() of calculate_scores / select_next_plate, re-read from /repo on every run by the fail-closed reader
+   harness/argparse_reader.py (Generated/SrcParser_<command>.v; a get_parser that is not a plain sequence of literal
+   parser.add_argument calls is refused and these theorems stop compiling).  What the argument records of Model/Cli.v assume of
+   the namespace parse_args() yields - the premise of the C??_model_is_source_cli_* links - is provided by the declared options:
+   Cli.declares = the attribute is the dest of EXACTLY ONE option, which stores the assumed kind of value and can be None exactly
+   where the record has an option type; Cli.dests_derived = the dest the reader computed is argparse's derivation from the flags;
+   Cli.dests_distinct = no dest and no flag is declared twice; Cli.seed_declared = --seed is an int option with a non-negative int
+   default (get_prng_from_seed_argument never sees None); Cli.coordinates_int = --n-chunks / --chunk-index / --n-chains /
+   --chain-index are int options that are never None; Cli.params_kv = every --*-param option accumulates through KVAppendAction;
+   Cli.fraction_declared = --holdout-fraction is a float option with a default in [0, 1]. ---- *)
+
+From Batchie Require Model.Cli Proofs.C18Parser Generated.SrcParser_calculate_scores Proofs.C18SourceParser_calculate_scores Generated.SrcParser_select_next_plate Proofs.C18SourceParser_select_next_plate.
+Theorem C06_source_parser_calculate_scores_fields :
+  forall f, In f (Cli.cs_fields ++ Cli.logging_fields) -> Cli.declares SrcParser_calculate_scores.src_parser_calculate_scores f.
+Proof. exact C18SourceParser_calculate_scores.parser_calculate_scores_fields. Qed.
+Print Assumptions C06_source_parser_calculate_scores_fields.
+
+Theorem C06_source_parser_calculate_scores_dests_derived :
+  Cli.dests_derived SrcParser_calculate_scores.src_parser_calculate_scores.
+Proof. exact C18SourceParser_calculate_scores.parser_calculate_scores_dests_derived. Qed.
+Print Assumptions C06_source_parser_calculate_scores_dests_derived.
+
+Theorem C06_source_parser_calculate_scores_dests_distinct :
+  Cli.dests_distinct SrcParser_calculate_scores.src_parser_calculate_scores.
+Proof. exact C18SourceParser_calculate_scores.parser_calculate_scores_dests_distinct. Qed.
+Print Assumptions C06_source_parser_calculate_scores_dests_distinct.
+
+Theorem C06_source_parser_calculate_scores_seed :
+  Cli.seed_declared SrcParser_calculate_scores.src_parser_calculate_scores.
+Proof. exact C18SourceParser_calculate_scores.parser_calculate_scores_seed. Qed.
+Print Assumptions C06_source_parser_calculate_scores_seed.
+
+Theorem C06_source_parser_calculate_scores_coordinates :
+  Cli.coordinates_int SrcParser_calculate_scores.src_parser_calculate_scores.
+Proof. exact C18SourceParser_calculate_scores.parser_calculate_scores_coordinates. Qed.
+Print Assumptions C06_source_parser_calculate_scores_coordinates.
+
+Theorem C06_source_parser_calculate_scores_params :
+  Cli.params_kv SrcParser_calculate_scores.src_parser_calculate_scores.
+Proof. exact C18SourceParser_calculate_scores.parser_calculate_scores_params. Qed.
+Print Assumptions C06_source_parser_calculate_scores_params.
+
+Theorem C06_source_parser_select_next_plate_fields :
+  forall f, In f (Cli.sn_fields ++ Cli.logging_fields) -> Cli.declares SrcParser_select_next_plate.src_parser_select_next_plate f.
+Proof. exact C18SourceParser_select_next_plate.parser_select_next_plate_fields. Qed.
+Print Assumptions C06_source_parser_select_next_plate_fields.
+
+Theorem C06_source_parser_select_next_plate_dests_derived :
+  Cli.dests_derived SrcParser_select_next_plate.src_parser_select_next_plate.
+Proof. exact C18SourceParser_select_next_plate.parser_select_next_plate_dests_derived. Qed.
+Print Assumptions C06_source_parser_select_next_plate_dests_derived.
+
+Theorem C06_source_parser_select_next_plate_dests_distinct :
+  Cli.dests_distinct SrcParser_select_next_plate.src_parser_select_next_plate.
+Proof. exact C18SourceParser_select_next_plate.parser_select_next_plate_dests_distinct. Qed.
+Print Assumptions C06_source_parser_select_next_plate_dests_distinct.
+
+Theorem C06_source_parser_select_next_plate_seed :
+  Cli.seed_declared SrcParser_select_next_plate.src_parser_select_next_plate.
+Proof. exact C18SourceParser_select_next_plate.parser_select_next_plate_seed. Qed.
+Print Assumptions C06_source_parser_select_next_plate_seed.
+
+Theorem C06_source_parser_select_next_plate_params :
+  Cli.params_kv SrcParser_select_next_plate.src_parser_select_next_plate.
+Proof. exact C18SourceParser_select_next_plate.parser_select_next_plate_params. Qed.
+Print Assumptions C06_source_parser_select_next_plate_params.
